@@ -199,3 +199,39 @@ def hashable(rng):
     if c == 6:
         return MyInt(rng.randrange(5) + 200)
     return float(rng.randrange(300, 310))
+
+
+class TreeNode:
+    """a parent-linked tree: every child points back at its parent (a reference cycle)"""
+
+    def __init__(self, name, parent=None):
+        self.name, self.parent, self.children = name, parent, []
+        if parent is not None:
+            parent.children.append(self)
+
+
+class Rebindable:
+    """a class whose module-level name is bound to a NEW class object during a run (importlib.reload, a re-executed class
+    statement in a plugin): pickles name their class, so later instances must come back as instances of the class the
+    name is bound to then"""
+    generation = 0
+
+    def __init__(self, x):
+        self.x = x
+
+    def __eq__(self, other):
+        return type(other) is type(self) and other.x == self.x
+
+    __hash__ = None
+
+
+def rebind_rebindable():
+    import sys
+    mod = sys.modules[__name__]
+    old = mod.Rebindable
+    new = type("Rebindable", (), {"__module__": __name__, "__qualname__": "Rebindable", "generation": old.generation + 1,
+                                  "__init__": lambda self, x: setattr(self, "x", x),
+                                  "__eq__": lambda self, other: type(other) is type(self) and other.x == self.x, "__hash__": None,
+                                  "__doc__": old.__doc__})
+    mod.Rebindable = new
+    return new
